@@ -155,7 +155,14 @@ def run(tier, seed):
             hist += [{"kind": "tankan", "input": x}, {"kind": "alpha", "input": x}, {"kind": "convert", "input": x[:40], "context": "Normal"}]
         hist += [{"kind": "convert", "input": "くるまで", "context": "Normal"}, {"kind": "tankan", "input": "く"}, {"kind": "restart"}, {"kind": "convert", "input": "くるまで", "context": "Normal"}]
         corpus.append(hist)
-    items = [(fixed_base, c) for c in corpus] + items
+    # sizes: a registered word of 90 KB (one very long line of user.dic, one very long request) and an answer of some 20 KB (100 candidates
+    # of 61 characters each) - any cap on a request, a response or a line shows here
+    corpus.append([{"kind": "register", "wkind": "CommonNoun", "reading": "おおきい", "word": "大" * 30000}, {"kind": "convert", "input": "おおきい", "context": "Normal"},
+                   {"kind": "register", "wkind": "ProperNoun", "reading": "あ", "word": "亜"}, {"kind": "convert", "input": "あ", "context": "Normal"}, {"kind": "restart"},
+                   {"kind": "convert", "input": "あ", "context": "Normal"}, {"kind": "convert", "input": "おおきい", "context": "Normal"}, {"kind": "convert", "input": "くるまで", "context": "Normal"}])
+    wide_base = {"std": [{"reading": "き", "stem": chr(0x4E00 + 7 * i), "speech": {"Noun": "Common"}} for i in range(120)], "anc": [], "tankan": []}
+    wide = [{"kind": "convert", "input": "き" + "ぬ" * 60, "context": c} for c in ("Normal", "ForeignWord")] + [{"kind": "proper", "input": "き" + "ぬ" * 60}, {"kind": "convert", "input": "き", "context": "Normal"}]
+    items = [(fixed_base, c) for c in corpus] + [(wide_base, wide)] + items
     runs = run_histories(items, threads=12)
     nontrivial = sum(1 for hr in runs if predicate(res, hr))
     n_model = model_histories(res, PROP, runs)
@@ -180,7 +187,7 @@ def run(tier, seed):
         "obligations": info["obligations"], "discharged": info["discharged"],
         "checker_cmd": f"cd /verif/coq && make Props/C05.vo + Print Assumptions on {len(THEOREMS)} theorems",
         "trusted_base": TRUSTED_COMMON + ["jsonrpsee / HTTP framing and what happens to a panicking callback (observed: connection closed)", "Mutex poisoning and task death are the only ways a panic wedges the server",
-                                          "i32 score overflow and the cubic lattice construction on very long inputs are outside the model", "tokio / OS scheduling (responses are awaited with a 5 s timeout)"],
+                                          "i32 score overflow and the cubic lattice construction on very long inputs are outside the model", "tokio / OS scheduling (responses are awaited with a 20 s timeout)"],
         "axioms": info["axioms"],
         "evaluations": sum(len(hr.requests) for hr in runs), "distinct_nontrivial": nontrivial,
         "rule": "request histories over the six RPC methods mixing well-formed requests with empty / non-kana / very long / control-character strings, unknown ids, every RegisterWord kind with consistent and "
